@@ -125,9 +125,26 @@ def run(tier, seed, replay=None):
         scen = []
         drift = 0
         if replay is None:
-            r = core.spec_check("SeqCommissioning", "SeqCommissioning_small.cfg" if tier == "quick"
-                                else "SeqCommissioning_full.cfg", sc, timeout=3000)
-            out.add_spec_run(r, "SeqCommissioning exhaustive")
+            if tier == "quick":
+                r = core.spec_check("SeqCommissioning", "SeqCommissioning_small.cfg", sc, timeout=3000)
+                out.add_spec_run(r, "SeqCommissioning exhaustive (2 gear, clash rounds K = 2)")
+            else:
+                # 3 gear, boundary random addresses, one clash round: exhaustive (5.0 M states, ~6 min); the full instance
+                # (4 random addresses, two clash rounds; > 50 M states, does not finish in 50 min) is sampled with
+                # tlc -simulate, invariants P1..P6 evaluated in every state
+                r = core.spec_check("SeqCommissioning", "SeqCommissioning_small.cfg", sc, timeout=3000)
+                out.add_spec_run(r, "SeqCommissioning exhaustive (2 gear, clash rounds K = 2)")
+                r = core.spec_check("SeqCommissioning", "SeqCommissioning_mid1.cfg", sc, timeout=3000)
+                out.add_spec_run(r, "SeqCommissioning exhaustive (3 gear, K = 1)")
+                r = core.run_tlc("SeqCommissioning", "SeqCommissioning_full.cfg", sc, workers=core.NCPU, timeout=3000,
+                                 extra=["-simulate", "num=2500", "-depth", "1600", "-seed", str(seed + 11)])
+                if r.rc != 0 or "Error:" in r.out:
+                    raise core.MachineryError("SeqCommissioning full instance, simulation failed:\n" + r.out[-3000:])
+                import re as _re
+                m = _re.search(r"(\d+) states checked, (\d+) traces generated", r.out)
+                out.extra.setdefault("spec_runs", {})["SeqCommissioning full instance (3 gear, 4 values, K = 2), tlc -simulate"] = {
+                    "states_checked": int(m.group(1)) if m else 0, "traces": int(m.group(2)) if m else 0, "wall_s": round(r.wall, 1)}
+                out.transitions += int(m.group(1)) if m else 0
             fs, fr = finding_scenario(sc)
             out.add_spec_run(fr, "SeqCommissioning finding config (P3 without exclusion)")
             out.extra["tlc_p3_counterexample_found"] = fs is not None
